@@ -8,6 +8,9 @@ CHECKS={
  'C01':dict(technique='property-based testing: generated TypeScript programs x generated JS values against a reference membership model (denotation-first spellings), proptest-driven choice streams with two-stage shrinking',
    text='Exploration: thousands of generated programs (every construct family of the statement has at least one spelling) times ~24 type-directed and arbitrary values each, compared with an independent ternary reference membership; a violation is a shrunk (program, value) pair replayable without the generator. No absence claim; bounds are in the evidence file.',
    note='Trusted: my reading of TypeScript membership under beff conventions (unspecified zones never compared), TypeScript-equivalence of the spellings by construction, Node 22 type stripping of the client runtime.', ref='DESIGN.md section 2 C01'),
+ 'C02':dict(technique='property-based testing with a differential judge: generated TypeScript programs printed in flat and contextual mode (generated refPathTemplate/container configurations); generated JSON documents (exact members, near misses, injected undeclared keys, documents derived from the emitted schema) judged by python-jsonschema Draft 2020-12 (ECMA-262 patterns via Node) against validate() and a ternary strict-membership reference',
+   text='Exploration: 1500 programs per quick run x ~30 documents per root x up to 3 printing modes; well-formedness by the Draft 2020-12 meta-schema, $ref resolution by JSON pointer in returned schema + export, both implication directions of the statement, and the throw-instead-of-wrong-schema clause for Date/bigint/Map/Set/typed arrays.',
+   note='Trusted: python-jsonschema 4.26 as the meaning of validity; custom format strings asserted with the registered definitions; exported definitions placed where the chosen template points.', ref='DESIGN.md section 2 C02'),
  'C03':dict(technique='property-based testing: relational oracle (validate/safeParse/parse agreement, projection, idempotence, key-order, non-mutation) over generated validators (compiled and b.*) x generated values x 5 option sets',
    text='Exploration of the (validator, value, options) product with relations that need no reference model; evaluated inside Node where identity, prototypes and key order are visible.',
    note='Trusted: the worker\'s projection/equality helpers; zod() out of scope.', ref='DESIGN.md section 2 C03'),
